@@ -214,6 +214,43 @@ def run(project: Project, rep, tier: str):
             else:
                 rep.refuted("LX-EDGE", fi, c, f"the residual bar pushed back, {ast.unparse(c.args[1])}, is not [birth, death]")
     rep.floor("LX-EDGE", 8)
+    # ---------------- LX-SCALE: comparisons between bar end-points are exact (scale-free)
+    from ..core import facets
+    n_cmp = 0
+    for n in ast.walk(f):
+        tests = []
+        if isinstance(n, (ast.If, ast.While)):
+            tests.append(n.test)
+        elif isinstance(n, ast.comprehension):
+            tests.extend(n.ifs)
+        elif isinstance(n, ast.IfExp):
+            tests.append(n.test)
+        for t in tests:
+            used = {x.id for x in ast.walk(t) if isinstance(x, ast.Name)}
+            if not (used & names):
+                continue
+            for sub in ast.walk(t):
+                is_close = isinstance(sub, ast.Call) and project.resolve(fi.module, sub.func, locs) in (
+                    "numpy.isclose", "numpy.allclose", "math.isclose")
+                is_cmp = isinstance(sub, ast.Compare)
+                if not (is_close or is_cmp):
+                    continue
+                if not ({x.id for x in ast.walk(sub) if isinstance(x, ast.Name)} & names):
+                    continue
+                e = _lin_over_names(project, fi, sub, names)
+                if e is None:
+                    continue
+                n_cmp += 1
+                d = facets.degree(e, facets.DegDecl(syms={nm: 1 for nm in names}))
+                if facets.is_top(d) and not d.reason.startswith("unmodelled"):
+                    rep.refuted("LX-SCALE", fi, sub,
+                                f"`{ast.unparse(sub)}` compares bar end-points with an absolute tolerance ({d.reason}): bars that "
+                                f"overlap by less than the tolerance are treated as touching, so the landscape is wrong for "
+                                f"diagrams at small (or, with the relative part, large) numeric scales",
+                                failing_input="[[0,4e-9],[2e-9,6e-9]]")
+    if n_cmp:
+        rep.discharged("LX-SCALE", fi, f, f"{n_cmp} comparisons between bar end-points inspected: exact and scale-free (those not "
+                                          f"reported)", nontrivial=True)
     # ---------------- LX-NOCOPY
     n_app = 0
     for c in ast.walk(f):
